@@ -62,7 +62,7 @@ def run(ctx):
     prefix = dict(root)
     prefix['stmts'] = root['stmts'][:ext_idx]
     prefix['expr'] = None
-    I = absx.Interp(f, B, unroll=1)
+    I = absx.Interp(f, B, unroll=1, result_combinators=False)
     pouts = I.ev(prefix, absx.St(I.param_env()))
     q = ('call', 'core::str::<impl str>::splitn', (('call', 'core::option::Option::<T>::unwrap_or', (('call', 'url::Url::query', (URL,), None), ('lit', '')), None), ('lit', 4), ('lit', '?')), None)
     def fld(n):
@@ -150,7 +150,7 @@ def run(ctx):
             same = args[0][1] == args[1][1]
             return [absx.Out('val', ('lit', same if cal.endswith('#Eq') else not same), st)]
         return None
-    I2 = absx.Interp(f, B, unroll=1, for_once=True, summaries=[ext_eq])
+    I2 = absx.Interp(f, B, unroll=1, for_once=True, summaries=[ext_eq], result_combinators=False)
     env0 = dict(I2.param_env())
     env0[names['query']] = q
     eouts = I2.ev(ext_let['init'], absx.St(env0, {('cursor', q): 3}))
@@ -235,7 +235,7 @@ def run(ctx):
     E = hirq.Body(f, f.body(eqp))
     ctx.analysed['bodies'].add(eqp)
     variants = [v['name'] for v in f.adt('ldap3::util::LdapUrlExt')['variants']]
-    IE = absx.Interp(f, E)
+    IE = absx.Interp(f, E, result_combinators=False)
     binds = {d['name']: b for b, d in E.defs.items() if d['kind'] == 'param'}
     wrong = []
     for a in variants:
